@@ -476,23 +476,25 @@ def listfields_obligations(P):
     for k in range(len(MET_FIELDS) + 1):
         for pattern in itertools.combinations(MET_FIELDS, k):
             pat = set(pattern)
-            met, lens = _met_obj(P, pat)
             tag = "lists=%s" % (sorted(pat) or "none")
-            # n_timesteps
-            res = _run_method(P, "MetConfig", "n_timesteps", met)
-            rets = [r for r in res if r.kind == "return"]
-            s1 = site + ".n_timesteps"
-            if not rets or len(rets) != len(res):
-                obs.append(req_ob("R-LISTFIELDS", s1, "n_timesteps returns on every path (%s)" % tag, False, detail=str([(r.kind, r.raise_desc) for r in res])))
-            for r in rets:
-                v = r.value
-                if pat:
-                    ok = isinstance(v, Expr) and any(v.eq(lens[f]) for f in pat)
-                    what = "number of steps is the length of a list-valued field"
-                else:
-                    ok = isinstance(v, Expr) and v.eq(ONE)
-                    what = "all-scalar forcing has one step"
-                obs.append(req_ob("R-LISTFIELDS", s1, "%s (%s)" % (what, tag), ok, detail=None if ok else "returns %s" % show(v), key={"lists": sorted(pat)}))
+            for z0v in (False, True):
+                met, lens = _met_obj(P, pat, z0=z0v)
+                tagz = tag + (" with z0" if z0v else "")
+                # n_timesteps
+                res = _run_method(P, "MetConfig", "n_timesteps", met)
+                rets = [r for r in res if r.kind == "return"]
+                s1 = site + ".n_timesteps"
+                if not rets or len(rets) != len(res):
+                    obs.append(req_ob("R-LISTFIELDS", s1, "n_timesteps returns on every path (%s)" % tagz, False, detail=str([(r.kind, r.raise_desc) for r in res])))
+                for r in rets:
+                    v = r.value
+                    if pat:
+                        ok = isinstance(v, Expr) and any(v.eq(lens[f]) for f in pat)
+                        what = "number of steps is the length of a list-valued field"
+                    else:
+                        ok = isinstance(v, Expr) and v.eq(ONE)
+                        what = "all-scalar forcing has one step"
+                    obs.append(req_ob("R-LISTFIELDS", s1, "%s (%s)" % (what, tagz), ok, detail=None if ok else "returns %s" % show(v), key={"lists": sorted(pat), "z0": z0v}))
             # get_step
             for ts in ("none", "list"):
                 for z0 in (False, True):
@@ -537,9 +539,9 @@ def validate_obligations(P):
     for k in range(len(MET_FIELDS) + 1):
         for pattern in itertools.combinations(MET_FIELDS, k):
             pat = set(pattern)
-            for ts in ("none", "list"):
-                met, lens = _met_obj(P, pat, ts=ts)
-                tag = "lists=%s timestamps=%s" % (sorted(pat) or "none", ts)
+            for ts, z0v in (("none", False), ("list", False), ("none", True), ("list", True)):
+                met, lens = _met_obj(P, pat, ts=ts, z0=z0v)
+                tag = "lists=%s timestamps=%s%s" % (sorted(pat) or "none", ts, " with z0" if z0v else "")
                 res = _run_method(P, "MetConfig", "validate", met)
                 if not res:
                     obs.append(req_ob("R-TS-VALIDATE", site, "validate is interpretable (%s)" % tag, None))
